@@ -230,3 +230,112 @@ Example C19_ex_kill :
                     (fun n v => (v, negb ((n =? 0) && (v =? 1)))) (fun _ => true) 2 in
   map (rec_pids Z) (recs s) = [[0; 1]; [1]] /\ map ppid (parts s) = [1] /\ crashed s = false.
 Proof. vm_compute. repeat split. Qed.
+
+(** * T5 warm starts — the trace-to-state link for WARM runs.  [exec] of Model/Protocol.v treats WarmStart as the
+    identity and always releases the rows of the step; Proofs/ProtocolWarmProofs.v extends it to [exec_w]
+    (WarmStart restores the particles and the pid counter of the restart record and sets the clock to step 0; the
+    catch-up release of step 0 releases nothing, as release.py drops the rows at the start time on a warm start),
+    proves that [exec_w] IS [exec] on every trace without WarmStart (so the cold link transfers), and that
+    executing the warm trace call by call yields exactly Sim.warm_run — in the restart's own step numbering and,
+    relabelled, in the numbering of the uninterrupted run; the records of the warm run are the snapshots at the
+    due steps after the restart step; composed with C08's restart theorem: executing the trace of the restarted
+    run continues the cold run record for record. *)
+From Ladim Require Import Proofs.SimShiftProofs Proofs.ProtocolWarmProofs.
+Theorem C19_warm_trace_is_warm_run :
+  forall (V C : Type) (release_at : Z -> list (Z * V)) (forcef : Z -> V -> V) (cachef : Z -> V -> C)
+    (trackf : Z -> V -> C -> V * bool) (ibmf : Z -> V -> V * bool) (due : Z -> bool) 
+    (r : rec V) (np N : Z) (hc : modname -> bool) (w0 : bool) (n0 : Z) (s0 : sim V C),
+  crashed s0 = false ->
+  fold_left (exec_w V C release_at forcef cachef trackf ibmf r np) (run_trace true N due hc) (w0, (n0, s0)) =
+  (true, (Z.max 0 (N - 1), warm_run V C release_at forcef cachef trackf ibmf due (rec0 V r) np N)).
+Proof. exact run_trace_is_warm_run. Qed.
+Print Assumptions C19_warm_trace_is_warm_run.
+
+Theorem C19_cold_trace_under_exec_w :
+  forall (V C : Type) (release_at : Z -> list (Z * V)) (forcef : Z -> V -> V) (cachef : Z -> V -> C)
+    (trackf : Z -> V -> C -> V * bool) (ibmf : Z -> V -> V * bool) (due : Z -> bool) 
+    (r : rec V) (np N : Z) (hc : modname -> bool),
+  0 <= N ->
+  fold_left (exec_w V C release_at forcef cachef trackf ibmf r np) (run_trace false N due hc)
+    (false, (step_after_construction, sim_init V C)) =
+  (false, (N - 1, cold_run V C release_at forcef cachef trackf ibmf due N)).
+Proof. exact run_trace_is_cold_run_w. Qed.
+Print Assumptions C19_cold_trace_under_exec_w.
+
+Theorem C19_exec_w_is_exec_without_warmstart :
+  forall (V C : Type) (release_at : Z -> list (Z * V)) (forcef : Z -> V -> V) (cachef : Z -> V -> C)
+    (trackf : Z -> V -> C -> V * bool) (ibmf : Z -> V -> V * bool) (r : rec V) (np : Z) 
+    (l : list call),
+  none is_warm l ->
+  forall st : Z * sim V C,
+  fold_left (exec_w V C release_at forcef cachef trackf ibmf r np) l (false, st) =
+  (false, fold_left (exec V C release_at forcef cachef trackf ibmf) l st).
+Proof. exact fold_exec_w_cold. Qed.
+Print Assumptions C19_exec_w_is_exec_without_warmstart.
+
+Theorem C19_warm_trace_is_warm_run_abs :
+  forall (V C : Type) (rel : Z -> list (Z * V)) (ff : Z -> V -> V) (cf : Z -> V -> C)
+    (tf : Z -> V -> C -> V * bool) (bf : Z -> V -> V * bool) (du : Z -> bool) (rel' : Z -> list (Z * V))
+    (ff' : Z -> V -> V) (cf' : Z -> V -> C) (tf' : Z -> V -> C -> V * bool) (bf' : Z -> V -> V * bool)
+    (du' : Z -> bool) (r : rec V) (np N : Z),
+  (forall n : Z, 0 < n < N -> rel' n = rel (n + rstep r)) ->
+  (forall (n : Z) (v : V), 0 <= n -> ff' n v = ff (n + rstep r) v) ->
+  (forall (n : Z) (v : V), 0 <= n -> cf' n v = cf (n + rstep r) v) ->
+  (forall (n : Z) (v : V) (c : C), 0 <= n -> tf' n v c = tf (n + rstep r) v c) ->
+  (forall (n : Z) (v : V), 0 <= n -> bf' n v = bf (n + rstep r) v) ->
+  (forall n : Z, 0 <= n -> du' n = du (n + rstep r)) ->
+  forall (hc : modname -> bool) (w0 : bool) (n0 : Z) (s0 : sim V C),
+  crashed s0 = false ->
+  let fin := fold_left (exec_w V C rel' ff' cf' tf' bf' r np) (run_trace true N du' hc) (w0, (n0, s0)) in
+  fst fin = true /\
+  fst (snd fin) = Z.max 0 (N - 1) /\
+  relabel V C (rstep r) (snd (snd fin)) = warm_run V C rel ff cf tf bf du r np (N + rstep r).
+Proof. exact run_trace_is_warm_run_abs. Qed.
+Print Assumptions C19_warm_trace_is_warm_run_abs.
+
+Theorem C19_warm_trace_records :
+  forall (V C : Type) (release_at : Z -> list (Z * V)) (forcef : Z -> V -> V) (cachef : Z -> V -> C)
+    (trackf : Z -> V -> C -> V * bool) (ibmf : Z -> V -> V * bool) (due : Z -> bool) 
+    (r : rec V) (np N : Z) (hc : modname -> bool) (w0 : bool) (n0 : Z) (s0 : sim V C),
+  crashed s0 = false ->
+  let W :=
+    snd
+      (snd
+         (fold_left (exec_w V C release_at forcef cachef trackf ibmf r np) (run_trace true N due hc)
+            (w0, (n0, s0)))) in
+  recs W = map (rec_at V C release_at forcef cachef trackf ibmf due np (rec0 V r)) (filter due (zrange 1 N)) /\
+  map rstep (recs W) = filter due (zrange 1 N) /\ crashed W = false.
+Proof. exact warm_trace_records. Qed.
+Print Assumptions C19_warm_trace_records.
+
+Theorem C19_warm_trace_continues_cold_run :
+  forall (V C : Type) (rel : Z -> list (Z * V)) (ff : Z -> V -> V) (cf : Z -> V -> C)
+    (tf : Z -> V -> C -> V * bool) (bf : Z -> V -> V * bool) (du : Z -> bool),
+  (forall (n : Z) (v : V), ff n (ff n v) = ff n v) ->
+  forall (N R : Z) (hc : modname -> bool),
+  0 <= R < N ->
+  du R = true ->
+  let step := sim_step V C rel ff cf tf bf du in
+  let before := fold_left step (zrange 0 R) (sim_init V C) in
+  let rec_R := snapshot V R (after_release V C rel ff before false R) in
+  let npR := npid before + Z.of_nat (Datatypes.length (rel R)) in
+  let cold := cold_run V C rel ff cf tf bf du N in
+  let fin :=
+    fold_left
+      (exec_w V C (shift_env R rel) (shift_env R ff) (shift_env R cf) (shift_env R tf) 
+         (shift_env R bf) rec_R npR) (run_trace true (N - R) (shift_env R du) hc)
+      (false, (step_after_construction, sim_init V C)) in
+  let W := snd (snd fin) in
+  fst fin = true /\
+  fst (snd fin) = N - R - 1 /\
+  recs cold = recs before ++ [rec_R] ++ map (relabel_rec V R) (recs W) /\
+  parts cold = parts W /\ npid cold = npid W /\ crashed W = false.
+Proof. exact warm_trace_continues_cold_run. Qed.
+Print Assumptions C19_warm_trace_continues_cold_run.
+
+(** non-vacuity: a warm run of 4 steps from a two-particle restart record (V = C = Z, rows at steps 0 (never
+    released), 1 and 3, output due except at step 1): both sides compute to the same non-trivial state *)
+Example C19_warm_trace_ex :
+  Ex.fin = (true, (Z.max 0 (4 - 1), warm_run Z Z Ex.rel Ex.ff Ex.cf Ex.tf Ex.bf Ex.du Ex.r0 4 4)) /\
+  map (fun r => (rstep r, length (rrows r))) (recs (snd (snd Ex.fin))) = [(2, 3%nat); (3, 4%nat)].
+Proof. split; [exact Ex.ex_link_by_theorem | vm_compute; reflexivity]. Qed.
